@@ -86,6 +86,8 @@ package intermediate
 //@ pure itemOf(a *AggregationProcess, k int) *ItemToExpire = a.flowKeyRecordMap[k].PriorityQueueItem
 
 //@ func (a *AggregationProcess) ForAllExpiredFlowRecordsDo(callback) (err)
+//@   // C13: the clock reading an operation acts on is taken inside its critical section (an instant read before waiting for the lock is stale by the time it is used)
+//@   callpre time.Now inlock: a.mutex.held
 //@   requires inv:  aggInv(a) && aggRetry(a) && !a.mutex.held && !a.mutex.rheld && callback != nil
 //@   requires timeouts: a.activeExpiryTimeout > 0 && a.inactiveExpiryTimeout > 0
 //@   ensures  inv:  aggInv(a) && aggRetry(a)
@@ -118,6 +120,8 @@ package intermediate
 //@   loop 1 invariant rearm: forall k: has(a.flowKeyRecordMap, k) && a.flowKeyRecordMap[k].ReadyToSend ==> itemOf(a, k).activeExpireTime == old(itemOf(a, k).activeExpireTime) || (old(itemOf(a, k).activeExpireTime) <= $lastNow && itemOf(a, k).activeExpireTime == $lastNow + a.activeExpiryTimeout)
 
 //@ func (a *AggregationProcess) GetExpiryFromExpirePriorityQueue() (r)
+//@   // C13: the clock reading an operation acts on is taken inside its critical section (an instant read before waiting for the lock is stale by the time it is used)
+//@   callpre time.Now inlock: a.mutex.held
 //@   requires inv: aggInv(a) && !a.mutex.held && !a.mutex.rheld
 //@   ensures  earliest: len(a.expirePriorityQueue) > 0 ==> (forall i in [0, len(a.expirePriorityQueue)): minExp(a.expirePriorityQueue[0]) <= minExp(a.expirePriorityQueue[i]))
 //@   ensures  adv:  len(a.expirePriorityQueue) > 0 && MinExpiryTime + minExp(a.expirePriorityQueue[0]) - $lastNow >= 0 ==> r == MinExpiryTime + minExp(a.expirePriorityQueue[0]) - $lastNow
@@ -397,6 +401,12 @@ package intermediate
 //@       ((ie(recList(r)[j]).Name == "egressNetworkPolicyRuleAction" || ie(recList(r)[j]).Name == "ingressNetworkPolicyRuleAction" || ie(recList(r)[j]).Name == "flowType") ==> dt(recList(r)[j]) == Unsigned8))
 
 //@ func (a *AggregationProcess) addOrUpdateRecordInMap(flowKey, record, isIPv4) (err)
+//@   // C05: a new flow's per-node fields are seeded for the node that reported the record: both nodes' fields when no correlation is needed,
+//@   // the source node's when the record comes from the source node, the destination node's otherwise (the same choice for counters and throughput)
+//@   callpre (*AggregationProcess).addFieldsForStatsAggregation node: (fillSrcStats <==> !correlationRequired || old(fromSrc(record))) && (fillDstStats <==> !correlationRequired || !old(fromSrc(record)))
+//@   callpre (*AggregationProcess).addFieldsForThroughputCalculation node: (fillSrcStats <==> !correlationRequired || old(fromSrc(record))) && (fillDstStats <==> !correlationRequired || !old(fromSrc(record)))
+//@   // C13: the clock reading an operation acts on is taken inside its critical section (an instant read before waiting for the lock is stale by the time it is used)
+//@   callpre time.Now inlock: a.mutex.held
 //@   requires inv:  aggInv(a) && aggRetry(a) && !a.mutex.held && !a.mutex.rheld && flowKey != nil
 //@   requires rec:  recNN(record) && flowKinds(record)
 //@   requires recs: forall k: has(a.flowKeyRecordMap, k) ==> recNN(a.flowKeyRecordMap[k].Record) && flowKinds(a.flowKeyRecordMap[k].Record)
